@@ -8,6 +8,9 @@ CLAIMED = {
  "C01": ("DESIGN.md §6 C01",
          "Seeded search over generated configurations, write/read scripts, copy paths and transport segmentations of the real ss2022 stream client and server over a simulated TCP link; FIFO byte-stream oracle with position-coded bytes. Sampling, not proof: each run is one configuration under one schedule.",
          "simnet models TCP as an ordered byte stream with arbitrary read fragmentation; Go runtime with the overlaid select/sysmon patches; identity-header depth 0..1 only."),
+ "C13": ("DESIGN.md §6 C13",
+         "The whole relay (service.Config JSON -> Manager -> Run: TCP relay, router, all stream protocols, stats, management API served by net/http) runs inside the simulator; seeded search over server x client protocol pairs (incl. a chained hop), users/auth, initial-payload timing around the wait window, stream sizes, half-close order, dial failures by errno/DNS/refusal/router rejection under seeded segmentation, latency and scheduling. Oracle: destination sees the requested address and payload++stream exactly once, replies flow back intact, half-closes are mirrored, failures are reported with the protocol's reply unless success had to be sent first, API statistics equal delivered bytes per server and per user.",
+         "simnet TCP model and resolver; harness edge endpoints are the repository's own protocol packages (checked separately by C01/C02/C07); TLS, tproxy/redirect and socket options are outside the simulation."),
 }
 
 NOT_APPLICABLE = {
